@@ -45,7 +45,9 @@ _SHADOW = (
     + "print(q, u, v, os.path.sep == os.sep, W[3])\n"
 )
 PROGRAMS = [
-    "x = 1\nif x:\n    print(x)\nelse:\n    print(0)\nprint(2)\n",
+    # ends with an expression deep enough to make ast.unparse overflow the stack, so that every conversion of it with the
+    # default unparser goes through the converter's fallback path
+    "x = 1\nif x:\n    print(x)\nelse:\n    print(0)\nprint(2)\ny = " + " + ".join(["1"] * 1200) + "\nprint(y)\n",
     # the same identifiers in different roles, first as variables that need a special load (nonlocal cell, free name of a
     # class body, shadowed global) read inside comprehensions/lambdas, then as comprehension targets: any name-keyed state
     # that survives a conversion changes the text of the next conversion of this very program
